@@ -1,4 +1,57 @@
-use crate::{ctx::CaseOut, Params};
-pub fn case(_idx: u64, _seed: u64, _p: &Params, o: &mut CaseOut) {
-    o.skipped = true;
+//! C08 — Floyd-Warshall returns the exact all-pairs distance matrix.
+
+use crate::ctx::CaseOut;
+use crate::props::c07;
+use crate::reprs::*;
+use crate::rng::{Fp, Rng};
+use crate::Params;
+use graaf::*;
+use std::collections::BTreeSet;
+
+pub fn case(idx: u64, seed: u64, p: &Params, o: &mut CaseOut) {
+    let mut r = Rng::for_case(8, seed, idx);
+    let (m, wf, fam) = c07::gen_case(&mut r, p.usize("max_order", 12), false);
+    if m.has_negative_circuit() {
+        o.skipped = true;
+        return;
+    }
+    let n = m.n();
+    let d = if r.chance(0.5) { build_w_isize(&m) } else { build_w_isize_alt(&m) };
+    let mut fw = FloydWarshall::new(&d);
+    let dist = fw.distances();
+    o.eq("matrix-order", &dist.order, &n);
+    let mut rows: Vec<Vec<isize>> = Vec::new();
+    for u in 0..n {
+        let want = c07::ref_row(&m, u).expect("harness: negative circuit");
+        let got: Vec<isize> = (0..n).map(|v| dist[(u, v)]).collect();
+        o.check(got == want, "row", || format!("row {u}: got {got:?} want {want:?}"));
+        o.check(got[u] == 0, "diagonal", || format!("dist[({u},{u})] = {}", got[u]));
+        // row u equals BellmanFordMoore from u
+        let mut bfm = BellmanFordMoore::new(&d, u);
+        let b = bfm.distances().map(<[isize]>::to_vec);
+        if b.as_ref() != Some(&got) {
+            // attribute with the model: only FW's fault if FW is the one that is wrong
+            o.check(got == want, "row-disagrees-with-BellmanFordMoore-and-with-the-model", || format!("row {u}: FW {got:?} BFM {b:?}"));
+        } else {
+            o.comparisons += 1;
+        }
+        rows.push(want);
+    }
+    let asym = (0..n).any(|u| (0..n).any(|v| rows[u][v] != rows[v][u]));
+    let has_inf = rows.iter().flatten().any(|&x| x == isize::MAX);
+    let has_neg = rows.iter().flatten().any(|&x| x < 0);
+    let finite: BTreeSet<isize> = rows.iter().flatten().copied().filter(|&x| x != isize::MAX).collect();
+    let mut fp = Fp::new();
+    m.fingerprint(&mut fp);
+    o.fp = fp.0;
+    o.nontrivial = asym && ((has_inf && has_neg) || finite.len() >= 3);
+    o.bump(wf);
+    o.bump(fam);
+    o.bumpn("order", n);
+    if has_neg {
+        o.bump("has_negative_distance");
+    }
+    if o.want_desc {
+        o.desc = format!("AdjacencyListWeighted<isize> weights={wf} family={fam} {}", m.describe());
+    }
 }
